@@ -457,8 +457,11 @@ func (h *H) OpenStream(id uint32) {
 	h.mu.Unlock()
 }
 
-func (h *H) SendWindowUpdate(id uint32, n uint32) {
-	_ = h.Write(rawframe.Append(nil, rawframe.WindowUpdate, 0, id, rawframe.U32(n)))
+func (h *H) SendWindowUpdate(id uint32, n uint32) { h.SendWindowUpdateFlags(id, n, 0) }
+
+// SendWindowUpdateFlags is SendWindowUpdate with (undefined) flag bits set.
+func (h *H) SendWindowUpdateFlags(id uint32, n uint32, flags byte) {
+	_ = h.Write(rawframe.Append(nil, rawframe.WindowUpdate, flags, id, rawframe.U32(n)))
 	h.mu.Lock()
 	if id == 0 {
 		h.ConnWin += int64(n)
